@@ -13,6 +13,7 @@ import shadow_common as sc
 KINDS = {
     "H1": "remark = H1", "H2": "remark = H2, note", "H2b": "remark = H2, other note", "H1again": "remark = H1", "r": "remark plain", "a": "permit tcp any any eq 80",
     "b": "deny ip host 10.0.0.1 any", "g": "permit ip object-group G1 object-group G2", "g1": "permit ip object-group G1 any", "e": "permit ip object-group EMPTY any",
+    "m": "permit tcp object-group G1 eq 20 21 any eq 80 443 8080",          # several ports per side: still one entry in the estimate
 }
 
 
